@@ -217,7 +217,18 @@ class C07:
                     except Exception as e:  # noqa
                         w.sim.observe("own-send-raised", repr(e)[:100])
                 w.at(0.05 + o["t"], own)
-            t_end = t + 1.0 + 3.5
+            # (c) release: judged at the standard's longest timeout after the last activity the traffic can cause
+            #     (J1939-21: T2 = T3 = 1.25 s; J1939-22: T5 = 3 s), BEFORE anything else wakes the background thread
+            t_max = 3.0 if fd else 1.25
+            own_end = 0.0
+            for o in p["own"]:
+                pk = -(-o["n"] // seg)
+                dur = {"bam": (pk + 2) * (0.011 if fd else 0.051), "rts_x": 0.0}.get(o["kind"], (pk + 2) * (max(p.get("reply_lat", [0.003])) + 0.003))
+                own_end = max(own_end, 0.05 + o["t"] + dur)
+            t_rel = max(t, own_end) + t_max + 0.3
+            w.run_until(w.t0 + t_rel)
+            tables_rel = s.peek_sessions()
+            t_end = max(t + 1.0 + 3.5, t_rel)
             w.run_until(w.t0 + t_end)
             n_swallowed = len(s.swallowed)
             # (b) probe timer
@@ -233,7 +244,10 @@ class C07:
                   % (t_reg - w.t0 - t, L + 0.0005))
             # (c) release
             tables = s.peek_sessions()
-            if tables is not None and any(tables):
+            if tables_rel is not None and any(tables_rel):
+                V("session-not-released", "session tables (rcv,snd,mpg)=%r still occupied %.2f s after the last frame / own transfer "
+                  "(longest timeout %.2f s + 0.3 s)" % (tables_rel, t_rel - max(t, own_end), t_max), "at-timeout")
+            elif tables is not None and any(tables):
                 V("session-not-released", "session tables (rcv,snd,mpg)=%r still occupied 4.5 s after the last frame" % (tables,))
             # (c) behavioural + (d) follow-up in each role
             peer.messages.clear()
